@@ -44,6 +44,13 @@ def rule_unwrap(ctx, rep):
                 rep.ok("R-UNWRAP", b["key"] + "/moves-data", cfg=tag)
             else:
                 rep.bad("R-UNWRAP", b["key"] + "/moves-data", "the returned value is not moved out of the block's payload field", F.loc(b), tag)
+    rule_decline(ctx, rep)
+    rep.floor("R-UNWRAP", 8, "five functions: path sets, destructor-free move-out, data move")
+
+
+def rule_decline(ctx, rep):
+    for tag, F, E in ctx.each():
+        A = balance.analysis(tag, F, E)
         # R-DECLINE: the very same handle comes back
         for h, name, trait in (("Arc", "try_unique", None), ("Arc", "try_as_unique", None)):
             for b in F.method(h, name, trait):
@@ -70,7 +77,6 @@ def rule_unwrap(ctx, rep):
                     rep.bad("R-DECLINE", b["key"] + "/zero-events", balance.path_report(F, b, bad[0], "the decline path must not touch count or ownership"), F.loc(b), tag)
                 else:
                     rep.ok("R-DECLINE", b["key"] + "/zero-events", cfg=tag)
-    rep.floor("R-UNWRAP", 8, "five functions: path sets, destructor-free move-out, data move")
     rep.floor("R-DECLINE", 4, "try_unique and try_as_unique")
 
 
